@@ -139,7 +139,7 @@ def analyse_kani(data):
                 code.append(item)
         res[name] = dict(id=hid, status=r.get('status'), duration_s=r.get('duration_ms', 0) / 1000.0,
                          obligations_failed=ob, code_failed=code, unwind_failed=unw, undetermined=undet,
-                         covers=covers, checks=nchecks, stats=stats.get(hid, {}), functions=sorted(funcs))
+                         covers=covers, checks=nchecks, stats=stats.get(hid) or {}, functions=sorted(funcs))
     return res
 
 
@@ -171,7 +171,7 @@ def build_replayer(config):
     bins = {}
     for prof, flag in (('dev', []), ('release', ['--release'])):
         tdir = os.path.join(BUILD, 'native-' + config)
-        cmd = ['cargo', 'build', '--offline', '--bin', 'replay', '--target-dir', tdir] + flag + feats
+        cmd = ['cargo'] + (['+nightly'] if config == 'unstable' else []) + ['build', '--offline', '--bin', 'replay', '--target-dir', tdir] + flag + feats
         rc, out, dt = sh(cmd, cwd=HARNESS, timeout=1800)
         if rc != 0:
             return None, out
@@ -214,6 +214,71 @@ def load_known():
 
 # ------------------------------------------------------------------------------------ check
 
+def run_e1(prop, tier, config, spec, parts, broken):
+    """run the harnesses of `prop` in one configuration -> (analysis, instances, part) or None"""
+    pats = ['q_%s__' % prop.lower()] + (['t_%s__' % prop.lower()] if tier == 'thorough' else [])
+    insts = [i for i in scenarios.instances() if i['prop'] == prop and config in i['scen'].configs
+             and (i['tier'] == 'q' or tier == 'thorough')]
+    if not insts:
+        return None
+    log('-- E1/Kani config=%s: %d harnesses' % (config, len(insts)))
+    r = run_kani(prop, tier, config, pats, harness_timeout=spec.get('harness_timeout', '20m' if tier == 'quick' else '60m'))
+    an = analyse_kani(r['json'])
+    part = dict(engine='E1/kani', config=config, cmd=r['cmd'], wall_s=round(r['wall'], 1), harnesses={}, log=r['log'])
+    parts.append(part)
+    if r['json'] is None:
+        part['no_result'] = True
+        part['tail'] = '\n'.join(r['out'].split('\n')[-30:])
+        return (None, insts, part)
+    missing = set(i['name'] for i in insts) - set(an)
+    if missing:
+        broken.append('harnesses not run in config %s: %s' % (config, ', '.join(sorted(missing)[:5])))
+    return (an, insts, part)
+
+
+def failed_items(h, sc, spec):
+    """(obligations, code failures) that count for this property"""
+    failed = list(h['obligations_failed'])
+    code = list(h['code_failed'])
+    if spec.get('only_desc'):
+        failed = [c for c in failed if spec['only_desc'] in c['desc']]
+        code = [c for c in code if spec['only_desc'] in c['desc']]
+    return failed, code
+
+
+def replay_counterexample(prop, config, name, h, items, obligations, bins, extra_bins=None):
+    """concrete playback + native replay; -> (confirmed record or None, list of attempts)"""
+    vals, dt = concrete_playback(config, h['id'])
+    attempts = []
+    for item in items:
+        key = None
+        for (cat, msg) in vals:
+            if msg == item['desc'] or item['desc'] in msg or msg in item['desc']:
+                key = (cat, msg)
+                break
+        if key is None:
+            attempts.append(dict(check=item['desc'], native='no concrete values produced by Kani'))
+            continue
+        rr = native_replay(bins, name, vals[key])
+        ok = any((xc == 1) or (xc == 3 and item not in obligations) for (xc, line) in rr.values())
+        rec = dict(property=prop, harness=name, config=config, check=item['desc'], where=item['loc'], function=item['function'],
+                   values=vals[key], native=rr, replay='harness/replay %s "%s"' % (name, encode_vals(vals[key])))
+        if extra_bins:
+            rec['native_other_config'] = native_replay(extra_bins, name, vals[key])
+        attempts.append(rec)
+        if ok:
+            return rec, attempts
+    return None, attempts
+
+
+def save_replay(prop, name, rec):
+    rdir = os.path.join(VERIF, 'replays', prop)
+    os.makedirs(rdir, exist_ok=True)
+    path = os.path.join(rdir, name + '.json')
+    open(path, 'w').write(json.dumps(rec, indent=1).replace('\n   ', ' ').replace('\n  ]', ' ]'))
+    return path
+
+
 def check(prop, tier):
     t0 = time.time()
     seed = int(os.environ.get('VERIF_SEED', '0') or 0)
@@ -227,148 +292,212 @@ def check(prop, tier):
     violations, broken, undecided, notes = [], [], [], []
     known, _fixed = load_known()
 
-    # ---- E1
-    for config in spec.get('e1_configs', []):
-        pats = ['q_%s__' % prop.lower()] + (['t_%s__' % prop.lower()] if tier == 'thorough' else [])
-        insts = [i for i in scenarios.instances() if i['prop'] == prop and config in i['scen'].configs
-                 and (i['tier'] == 'q' or tier == 'thorough')]
-        if not insts:
-            continue
-        log('-- E1/Kani config=%s: %d harnesses' % (config, len(insts)))
-        r = run_kani(prop, tier, config, pats, harness_timeout=spec.get('harness_timeout', '20m' if tier == 'quick' else '60m'))
-        an = analyse_kani(r['json'])
-        part = dict(engine='E1/kani', config=config, cmd=r['cmd'], wall_s=round(r['wall'], 1), harnesses={}, log=r['log'])
-        parts.append(part)
-        if r['json'] is None:
-            # compile error or crash: for the build clause of C17 a compile error of the crate under test is the finding
-            tail = '\n'.join(r['out'].split('\n')[-40:])
-            log(tail)
-            broken.append('kani produced no result for config %s (see %s)' % (config, r['log']))
-            continue
-        expected = set(i['name'] for i in insts)
-        missing = expected - set(an)
-        if missing:
-            broken.append('harnesses not run in config %s: %s' % (config, ', '.join(sorted(missing)[:5])))
-        bins = None
-        replayed = 0
-        fam_covers = {}
-        for name in sorted(an, key=lambda n: (an[n]['duration_s'])):
-            h = an[name]
-            inst = next((i for i in insts if i['name'] == name), None)
-            if inst is None:
+    if spec.get('differential'):
+        differential(prop, tier, spec, parts, violations, broken, undecided, notes)
+    else:
+        for config in spec.get('e1_configs', []):
+            r = run_e1(prop, tier, config, spec, parts, broken)
+            if r is None:
                 continue
-            sc = inst['scen']
-            fam = sc.fn
-            for cmsg, st in h['covers'].items():
-                fam_covers.setdefault((fam, cmsg), []).append(st)
-            entry = dict(status=h['status'], n=inst['n'], m=inst.get('m'), unwind=inst['unwind'], checks=h['checks'],
-                         solver_s=h['stats'].get('runtime_solver_s'), symex_s=h['stats'].get('runtime_symex_s'),
-                         vccs=h['stats'].get('vccs_generated'), duration_s=h['duration_s'], functions=h['functions'])
-            part['harnesses'][name] = entry
-            if sc.expect_fail:
-                # sensitivity witness: must fail with exactly the expected check
-                descs = [x['desc'] for x in h['obligations_failed'] + h['code_failed']]
-                if not descs or any(sc.expect_fail not in d for d in descs):
-                    broken.append('sensitivity witness %s did not fail as expected: %s' % (name, descs[:3]))
-                    entry['witness'] = 'BROKEN'
+            an, insts, part = r
+            if an is None:
+                if spec.get('build_clause') and build_fails(config):
+                    # the crate does not build in this configuration: that *is* the violation (C17's build clause)
+                    rec = dict(engine='build', property=prop, config=config, cmd='cd harness && cargo build --offline ' + ' '.join(CONFIGS[config][0]),
+                               tail=part.get('tail', '')[-1500:])
+                    path = save_replay(prop, 'build_' + config, rec)
+                    violations.append(dict(path=path, harness='build ' + config, check='the crate builds in configuration ' + CONFIGS[config][1], role='build/' + config))
                 else:
-                    entry['witness'] = 'fails as expected'
+                    log(part.get('tail', ''))
+                    broken.append('kani produced no result for config %s (see %s)' % (config, part['log']))
                 continue
-            if h['unwind_failed']:
-                broken.append('%s: unwinding bound too small (%s)' % (name, h['unwind_failed'][0]['loc']))
-                continue
-            if h['undetermined'] or h['status'] not in ('Success', 'Failure'):
-                undecided.append('%s: status %s %s' % (name, h['status'], [x['status'] for x in h['undetermined'][:2]]))
-                continue
-            failed = list(h['obligations_failed'])
-            code = list(h['code_failed'])
-            if sc.extra.get('expect_panic'):
-                # "must panic" harness: the crate's own panics are expected (and required); anything that is
-                # not a Rust panic (memory-safety checks) stays a failure
-                panics = [c for c in code if c['category'] in ('assertion', 'arithmetic_overflow', 'division-by-zero')]
-                code = [c for c in code if c not in panics]
-                entry['documented_panics_seen'] = sorted(set(c['desc'][:60] for c in panics))[:6]
-                if not panics and not failed:
-                    broken.append('%s: no panic check failed under the documented panic condition' % name)
-            if not spec.get('code_failures_count', True):
-                if code and not failed:
-                    notes.append('%s: the operation fails a built-in check (%s); such paths are outside %s' % (name, code[0]['desc'][:80], prop))
-                code = []
-            if not failed and not code:
-                if h['status'] != 'Success':
-                    undecided.append('%s: reported %s without a failed check' % (name, h['status']))
-                continue
-            # ---- a counterexample: replay natively before reporting
-            entry['failed'] = [x['desc'] for x in failed + code][:6]
-            if replayed >= spec.get('max_replays', 3) or (violations and replayed >= 1):
-                notes.append('%s also fails (%s); not replayed' % (name, entry['failed'][0]))
-                entry['replay'] = 'skipped'
-                continue
-            replayed += 1
-            if bins is None:
-                bins, err = build_replayer(config)
-                if bins is None:
-                    broken.append('replayer does not build: ' + err[-400:])
-                    continue
-            vals, dt = concrete_playback(config, h['id'])
-            confirmed = None
-            for item in failed + code:
-                key = None
-                for (cat, msg) in vals:
-                    if msg == item['desc'] or item['desc'] in msg or msg in item['desc']:
-                        key = (cat, msg)
-                        break
-                if key is None:
-                    continue
-                rr = native_replay(bins, name, vals[key])
-                ok = False
-                for prof, (xc, line) in rr.items():
-                    if item in failed and xc == 1:
-                        ok = True
-                    if item in code and xc in (1, 3):
-                        ok = True
-                rec = dict(property=prop, harness=name, config=config, check=item['desc'], where=item['loc'],
-                           function=item['function'], values=vals[key], native=rr, n=inst['n'],
-                           replay='harness/replay %s "%s"' % (name, encode_vals(vals[key])))
-                if ok:
-                    confirmed = rec
-                    break
-                entry.setdefault('unconfirmed', []).append(dict(check=item['desc'], native=rr))
-            if confirmed:
-                rdir = os.path.join(VERIF, 'replays', prop)
-                os.makedirs(rdir, exist_ok=True)
-                path = os.path.join(rdir, name + '.json')
-                open(path, 'w').write(json.dumps(confirmed, indent=1).replace('\n   ', ' ').replace('\n  ]', ' ]'))
-                role = '%s/%s' % (sc.fn, 'obligation' if confirmed['check'] in [x['desc'] for x in failed] else 'panic')
-                kf = [k for k in known if k['prop'] == prop and k['key'] == role]
-                if kf:
-                    log('KNOWN-FINDING: property=%s %s %s' % (prop, role, kf[0]['text']))
-                    entry['known_finding'] = role
-                else:
-                    violations.append(dict(path=path, harness=name, check=confirmed['check'], role=role))
-                    entry['replay'] = 'REPRODUCED natively'
-            else:
-                broken.append('%s: counterexample for "%s" does not reproduce natively (kept in %s)' % (
-                    name, (failed + code)[0]['desc'][:80], r['log']))
-                entry['replay'] = 'NOT reproduced'
-        # vacuity: every cover of a scenario family must be satisfiable for at least one capacity
-        for (fam, cmsg), sts in sorted(fam_covers.items()):
-            if not any(s in ('Satisfied', 'Covered', 'Success') for s in sts):
-                broken.append('vacuity: cover "%s" of %s is never satisfied (%s)' % (cmsg, fam, sorted(set(sts))))
-        part['covers'] = {'%s: %s' % k: ('satisfied in %d of %d instances' % (sum(1 for s in v if s in ('Satisfied', 'Covered', 'Success')), len(v)))
-                          for k, v in sorted(fam_covers.items())}
+            judge_config(prop, tier, config, spec, an, insts, part, known, violations, broken, undecided, notes)
 
-    # ---- E2 (mir2c) parts are plugged in by props.py
+    # ---- E2 (mir2c) parts
     for e2 in spec.get('e2', []):
         import mir2c_run
-        r = mir2c_run.run(prop, tier, e2, log)
+        if e2.get('baseline'):
+            # differential (C18): a failure that the baseline configuration shows too is equal behaviour
+            rb = mir2c_run.run(prop, tier, dict(e2, **e2['baseline']), log, quiet=True)
+            parts.append(rb['part'])
+            broken += rb.get('broken', [])
+            undecided += rb.get('undecided', [])
+            r = mir2c_run.run(prop, tier, e2, log, baseline=rb['failing'])
+            if r['failing'] != rb['failing'] and not r.get('violations') and (rb['failing'] - r['failing']):
+                broken.append('E2 differential: the baseline configuration fails checks that the other does not: %s' % sorted(rb['failing'] - r['failing'])[:3])
+        else:
+            r = mir2c_run.run(prop, tier, e2, log)
         parts.append(r['part'])
-        violations += r.get('violations', [])
+        for v in r.get('violations', []):
+            kf = [k for k in known if k['prop'] == prop and k['key'] == v.get('role')]
+            if kf:
+                log('KNOWN-FINDING: property=%s %s %s' % (prop, v.get('role'), kf[0]['text']))
+            else:
+                violations.append(v)
         broken += r.get('broken', [])
         undecided += r.get('undecided', [])
         notes += r.get('notes', [])
 
     return finish(prop, tier, seed, t0, parts=parts, violations=violations, broken=broken, undecided=undecided, notes=notes)
+
+
+def build_fails(config):
+    feats, _ = CONFIGS[config]
+    rc, out, dt = sh(['cargo', 'build', '--offline', '--target-dir', os.path.join(BUILD, 'native-' + config)] + feats, cwd=HARNESS, timeout=1800)
+    return rc != 0
+
+
+def harness_entry(inst, h):
+    return dict(status=h['status'], n=inst['n'], m=inst.get('m'), unwind=inst['unwind'], checks=h['checks'],
+                solver_s=h['stats'].get('runtime_solver_s'), symex_s=h['stats'].get('runtime_symex_s'),
+                vccs=h['stats'].get('vccs_generated'), duration_s=h['duration_s'], functions=h['functions'])
+
+
+def judge_config(prop, tier, config, spec, an, insts, part, known, violations, broken, undecided, notes):
+    bins = None
+    replayed = 0
+    fam_covers = {}
+    for name in sorted(an, key=lambda n: (an[n]['duration_s'])):
+        h = an[name]
+        inst = next((i for i in insts if i['name'] == name), None)
+        if inst is None:
+            continue
+        sc = inst['scen']
+        for cmsg, st in h['covers'].items():
+            fam_covers.setdefault((sc.fn, cmsg), []).append(st)
+        entry = harness_entry(inst, h)
+        part['harnesses'][name] = entry
+        if sc.expect_fail:
+            # sensitivity witness: must fail with exactly the expected check
+            descs = [x['desc'] for x in h['obligations_failed'] + h['code_failed']]
+            if not descs or any(sc.expect_fail not in d for d in descs):
+                broken.append('sensitivity witness %s did not fail as expected: %s' % (name, descs[:3]))
+                entry['witness'] = 'BROKEN'
+            else:
+                entry['witness'] = 'fails as expected'
+                entry['status'] = 'Success'
+            continue
+        if h['unwind_failed']:
+            broken.append('%s: unwinding bound too small (%s)' % (name, h['unwind_failed'][0]['loc']))
+            continue
+        if h['undetermined'] or h['status'] not in ('Success', 'Failure'):
+            undecided.append('%s: status %s %s' % (name, h['status'], [x['status'] for x in h['undetermined'][:2]]))
+            continue
+        failed, code = failed_items(h, sc, spec)
+        if sc.extra.get('expect_panic'):
+            # "must panic" harness: the crate's own panics are expected (and required); anything that is
+            # not a Rust panic (memory-safety checks) stays a failure
+            panics = [c for c in code if c['category'] in ('assertion', 'arithmetic_overflow', 'division-by-zero')]
+            code = [c for c in code if c not in panics]
+            entry['documented_panics_seen'] = sorted(set(c['desc'][:60] for c in panics))[:6]
+            if not panics and not failed:
+                broken.append('%s: no panic check failed under the documented panic condition' % name)
+            if not failed and not code:
+                entry['status'] = 'Success'
+        if not spec.get('code_failures_count', True):
+            if code and not failed:
+                notes.append('%s: the operation fails a built-in check (%s); such paths are outside %s' % (name, code[0]['desc'][:80], prop))
+            code = []
+        if not failed and not code:
+            if h['status'] != 'Success' and not sc.extra.get('expect_panic') and not (h['obligations_failed'] or h['code_failed']):
+                undecided.append('%s: reported %s without a failed check' % (name, h['status']))
+            elif h['status'] != 'Success' and (h['obligations_failed'] or h['code_failed']) and not sc.extra.get('expect_panic'):
+                entry['status'] = 'Success (failures outside this property: %s)' % (h['obligations_failed'] + h['code_failed'])[0]['desc'][:60]
+            continue
+        # ---- a counterexample: replay natively before reporting
+        entry['failed'] = [x['desc'] for x in failed + code][:6]
+        if replayed >= spec.get('max_replays', 3) or (violations and replayed >= 1):
+            notes.append('%s also fails (%s); not replayed' % (name, entry['failed'][0]))
+            entry['replay'] = 'skipped'
+            continue
+        replayed += 1
+        if bins is None:
+            bins, err = build_replayer(config)
+            if bins is None:
+                broken.append('replayer does not build: ' + err[-400:])
+                continue
+        confirmed, attempts = replay_counterexample(prop, config, name, h, failed + code, failed, bins)
+        if confirmed:
+            path = save_replay(prop, name, confirmed)
+            role = '%s/%s' % (sc.fn, 'obligation' if confirmed['check'] in [x['desc'] for x in failed] else 'panic')
+            kf = [k for k in known if k['prop'] == prop and k['key'] == role]
+            if kf:
+                log('KNOWN-FINDING: property=%s %s %s' % (prop, role, kf[0]['text']))
+                entry['known_finding'] = role
+            else:
+                violations.append(dict(path=path, harness=name, check=confirmed['check'], role=role))
+                entry['replay'] = 'REPRODUCED natively'
+        else:
+            broken.append('%s: counterexample for "%s" does not reproduce natively (log %s; attempts %s)' % (
+                name, (failed + code)[0]['desc'][:80], part['log'], json.dumps(attempts)[:400]))
+            entry['replay'] = 'NOT reproduced'
+    # vacuity: every cover of a scenario family must be satisfiable for at least one capacity
+    for (fam, cmsg), sts in sorted(fam_covers.items()):
+        if not any(s in ('Satisfied', 'Covered', 'Success') for s in sts):
+            broken.append('vacuity: cover "%s" of %s is never satisfied (%s)' % (cmsg, fam, sorted(set(sts))))
+    part['covers'] = {'%s: %s' % k: ('satisfied in %d of %d instances' % (sum(1 for s in v if s in ('Satisfied', 'Covered', 'Success')), len(v)))
+                      for k, v in sorted(fam_covers.items())}
+
+
+def differential(prop, tier, spec, parts, violations, broken, undecided, notes):
+    """C18: the same harnesses in two configurations; only a *difference* between them is a violation"""
+    ca, cb = spec['differential']
+    ra = run_e1(prop, tier, ca, spec, parts, broken)
+    rb = run_e1(prop, tier, cb, spec, parts, broken)
+    if ra is None or rb is None or ra[0] is None or rb[0] is None:
+        broken.append('differential run incomplete (%s / %s)' % (ca, cb))
+        for r in (ra, rb):
+            if r and r[0] is None:
+                log(r[2].get('tail', ''))
+        return
+    (ana, insts, pa), (anb, _, pb) = ra, rb
+    bins = {}
+    replayed = 0
+    for name in sorted(set(ana) | set(anb)):
+        inst = next((i for i in insts if i['name'] == name), None)
+        if inst is None or name not in ana or name not in anb:
+            broken.append('%s missing in one configuration' % name)
+            continue
+        ha, hb = ana[name], anb[name]
+        pa['harnesses'][name] = harness_entry(inst, ha)
+        pb['harnesses'][name] = harness_entry(inst, hb)
+        for cfgname, h in ((ca, ha), (cb, hb)):
+            if h['unwind_failed']:
+                broken.append('%s [%s]: unwinding bound too small' % (name, cfgname))
+            if h['undetermined'] or h['status'] not in ('Success', 'Failure'):
+                undecided.append('%s [%s]: status %s' % (name, cfgname, h['status']))
+        fa = sorted(set(x['desc'] for x in ha['obligations_failed'] + ha['code_failed']))
+        fb = sorted(set(x['desc'] for x in hb['obligations_failed'] + hb['code_failed']))
+        if fa == fb:
+            if fa:
+                notes.append('%s fails identically in both configurations (%s): equal behaviour, not a %s matter' % (name, fa[0][:60], prop))
+                pa['harnesses'][name]['status'] = pb['harnesses'][name]['status'] = 'Success (identical failure in both configurations)'
+            continue
+        # behaviour differs between the builds: confirm natively in both
+        if replayed >= 2:
+            notes.append('%s also differs between the configurations; not replayed' % name)
+            continue
+        replayed += 1
+        for c in (ca, cb):
+            if c not in bins:
+                bins[c], err = build_replayer(c)
+                if bins[c] is None:
+                    broken.append('replayer for %s does not build: %s' % (c, err[-300:]))
+        if not bins.get(ca) or not bins.get(cb):
+            continue
+        which, h, other = (cb, hb, ca) if fb else (ca, ha, cb)
+        items = h['obligations_failed'] + h['code_failed']
+        confirmed, attempts = replay_counterexample(prop, which, name, h, items, h['obligations_failed'], bins[which], extra_bins=bins[other])
+        if confirmed:
+            o = confirmed.get('native_other_config', {})
+            same = all(o.get(pr, (None,))[0] == confirmed['native'][pr][0] for pr in confirmed['native'])
+            if same:
+                notes.append('%s: fails natively in both configurations alike; not a difference' % name)
+                continue
+            path = save_replay(prop, name, dict(confirmed, differs_from=other))
+            violations.append(dict(path=path, harness=name, check='[%s only] %s' % (which, confirmed['check']), role='%s/differs' % inst['scen'].fn))
+        else:
+            broken.append('%s: difference between %s and %s does not reproduce natively (%s)' % (name, ca, cb, json.dumps(attempts)[:300]))
 
 
 def finish(prop, tier, seed, t0, parts, violations=(), broken=(), undecided=(), notes=()):
